@@ -91,9 +91,13 @@ func Jitter(site string, idx int) {
 		h = mix(h ^ uint64(site[i]))
 	}
 	h = mix(h ^ uint64(idx))
-	switch h & 3 {
-	case 0:
-	case 1:
+	switch {
+	case h&127 == 5:
+		// a straggler: this record is overtaken by many later ones
+		atomic.AddUint64(&delayed, 1)
+		time.Sleep(time.Duration(40*maxMicros) * time.Microsecond)
+	case h&3 == 0:
+	case h&3 == 1:
 		runtime.Gosched()
 	default:
 		atomic.AddUint64(&delayed, 1)
